@@ -64,6 +64,9 @@ func engineGoroutines() []string {
 
 const execBound = 15 * time.Second
 
+// sweepEqual is the result comparison of the running sweep (tie-aware, see equalOrTie).
+var sweepEqual func(a, b *oracle.Res, tol oracle.Tol) string
+
 // runFaulted executes the case's query once with the given faults injected.
 // mode: "" plain; "deadline:<us>" uses a context deadline; cancellation faults use
 // the session's Cancel hook.
@@ -240,6 +243,7 @@ func sweep(c *core.Case, kinds []string, classes []string, judge func(kind strin
 	}
 	feats := Features(c, expr)
 	st := memstore.New(c.Series)
+	sweepEqual = func(a, b *oracle.Res, tol oracle.Tol) string { return equalOrTie(c, expr, st, a, b, tol) }
 	snap := st.Dump()
 	eng := NewEngine(c.Lookback, c.Opt, c.Fallback)
 	base := runFaulted(c, eng, st, nil, 0)
@@ -298,7 +302,7 @@ func sweep(c *core.Case, kinds []string, classes []string, judge func(kind strin
 	if !after.returned {
 		return core.Verdict{Status: "violation", Detail: caseHdr(c) + "a fault-free execution after the faulted ones did not return\n" + after.dump, Features: feats}
 	}
-	if d := oracle.Equal(after.res, base.res, oracle.DefaultTol(Scale(c.Series))); d != "" {
+	if d := equalOrTie(c, expr, st, after.res, base.res, oracle.DefaultTol(Scale(c.Series))); d != "" {
 		return core.Verdict{Status: "violation", Detail: caseHdr(c) + "after the faulted executions the same engine answers the fault-free query differently: " + d, Features: feats}
 	}
 	if d := sameStore(snap, st.Dump()); d != "" {
@@ -348,7 +352,7 @@ func init() {
 				}
 				return ""
 			}
-			if d := oracle.Equal(o.res, base.res, tol); d != "" {
+			if d := sweepEqual(o.res, base.res, tol); d != "" {
 				return "fault did not fire, yet the result differs from the fault-free result: " + d
 			}
 			return ""
@@ -366,12 +370,16 @@ func init() {
 				if o.res.Err == nil {
 					return "the storage reported a failure but the query returned a successful result"
 				}
+				if base.res.Err != nil {
+					// the evaluation fails on its own as well; which of the two errors wins is not specified
+					return ""
+				}
 				if !errors.Is(o.res.Err, memstore.ErrInjected) {
 					return fmt.Sprintf("the query error does not wrap the storage's error: %v", o.res.Err)
 				}
 				return ""
 			}
-			if d := oracle.Equal(o.res, base.res, tol); d != "" {
+			if d := sweepEqual(o.res, base.res, tol); d != "" {
 				return "fault did not fire, yet the result differs from the fault-free result: " + d
 			}
 			return ""
@@ -431,7 +439,7 @@ func init() {
 				return ""
 			}
 			// success: must be the complete result
-			if d := oracle.Equal(o.res, base.res, tol); d != "" {
+			if d := sweepEqual(o.res, base.res, tol); d != "" {
 				return "Exec returned a successful result that differs from the complete result (partial result after cancellation): " + d
 			}
 			return ""
@@ -450,7 +458,7 @@ func init() {
 					return violation("%sdeadline %dus: Exec did not return within %s:\n%s", caseHdr(c), us, execBound, o.dump)
 				}
 				if o.res.Err == nil {
-					if d := oracle.Equal(o.res, base.res, tol); d != "" {
+					if d := sweepEqual(o.res, base.res, tol); d != "" {
 						return violation("%sdeadline %dus: successful result differs from the complete result: %s", caseHdr(c), us, d)
 					}
 				} else if base.res.Err == nil && !errors.Is(o.res.Err, context.DeadlineExceeded) && !strings.Contains(o.res.Err.Error(), "deadline exceeded") {
